@@ -23,7 +23,7 @@ ASSUMPTIONS = ["generated code = frames whose co_filename is '<string>' (the lib
                "scenario classes are created inside functions, by functional APIs, or twice under one qualified name"]
 UNIT_TIMEOUT = 600
 CHUNK = 8
-USERISH = {"dc", "nt", "ntf", "td", "dcgen", "dcgeninh", "dcinh", "dcself", "dcselft", "dcfwd", "dcmut", "newtype", "tvbound", "tvconstr"}
+USERISH = {"dc", "nt", "ntf", "td", "dcgen", "dcgeninh", "dcinh", "dcself", "dcselft", "dcfwd", "dcmut", "dcselfg", "newtype", "tvbound", "tvconstr"}
 USER_LEAVES = {"enum_str", "enum_int", "intenum", "strenum", "flag", "intflag", "literal_enum", "newtype_int", "sertype", "asertype"}
 
 KINDS = ("enum", "intenum", "flag", "strenum", "namedtuple", "typing_namedtuple", "typeddict", "make_dataclass", "make_dataclass_mixin",
